@@ -170,12 +170,16 @@ void check_basic(const Slot<T>& s, Flags& f, const char* after) {
   }
   double c = sk.get_c(), ec = m.c();
   bool ok = (m.n == 0) ? (c == 0.0) : close_rel(c, ec, 1e-9);
-  if (m.stale) {
-    VF_CHECK_K(ok, "c-definition-after-merge", KEY_STALE, "after " << after << ": c " << c << " but min(k, W/wmax) = min(" << m.k << ", " << m.W << "/" << m.wmax
-               << ") = " << ec << " (an earlier merge's lighter input held the larger maximum weight)");
-  } else if (m.emptydst) {
+  if (m.emptydst) {
     VF_CHECK_K(ok, "c-definition-merge-into-empty", KEY_EMPTYDST, "after " << after << ": c " << c << " but min(k, W/wmax) = min(" << m.k << ", " << m.W << "/" << m.wmax
                << ") = " << ec << " (non-empty sketch merged into an empty sketch with smaller k)");
+  } else if (m.stale) {
+    VF_CHECK_K(ok, "c-definition-after-merge", KEY_STALE, "after " << after << ": c " << c << " but min(k, W/wmax) = min(" << m.k << ", " << m.W << "/" << m.wmax
+               << ") = " << ec << " (an earlier merge's lighter input held the larger maximum weight)");
+  } else if (m.over1 || m.tiny) {
+    // the sample already holds a different number of items than c says (keyed findings): a merge reads c and the items separately
+    VF_CHECK_K(ok, "c-definition-after-sample-size-defect", (m.over1 ? KEY_OVER1 : KEY_TINY), "after " << after << ": c " << c << " but min(k, W/wmax) = min(" << m.k << ", " << m.W << "/" << m.wmax
+               << ") = " << ec << " (after an insertion with probability 1 + eps / a share of c below rounding error)");
   } else {
     VF_CHECK(ok, "c-definition", "after " << after << ": c " << c << " but min(k, W/wmax) = min(" << m.k << ", " << m.W << "/" << m.wmax << ") = " << ec);
   }
@@ -247,6 +251,18 @@ std::vector<uint8_t> image_of(const ebpps_sketch<T>& sk) {
   return std::vector<uint8_t>(b.begin(), b.end());
 }
 
+// the maximum weight as the sketch itself stores it (documented image layout: bytes 24..31); used only to classify the SHAPE of
+// a merge for the known-finding keys, never as an oracle
+template <typename T>
+double stored_wmax(const Slot<T>& s) {
+  if (s.sk.is_empty()) return 0.0;
+  if (!ser_ok(s.sk)) return s.m.wmax;
+  auto img = image_of(s.sk);
+  double w = s.m.wmax;
+  if (img.size() >= 32) std::memcpy(&w, img.data() + 24, 8);
+  return w;
+}
+
 template <typename T>
 void do_update(Slot<T>& s, uint64_t id, double w, bool rvalue) {
   if (rvalue) s.sk.update(Codec<T>::make(id), w);
@@ -275,7 +291,11 @@ void do_merge(Slot<T>& dst, Slot<T>& src, bool rvalue, uint32_t newk, Flags& f) 
     {
       const ebpps_sketch<T>& L = swap ? dst.sk : src.sk;
       const ebpps_sketch<T>& H = swap ? src.sk : dst.sk;
-      double avg = L.get_cumulative_weight() / L.get_c(), wm = std::max(a.wmax, b.wmax), kk = std::min(a.k, b.k), cum = H.get_cumulative_weight();
+      // shape of KEY_STALE at a merge: the maxima the two sketches store are not the maxima of their streams (an earlier merge
+      // dropped the larger one); the merge then works with a wrong rho and may index past the end of the sample
+      double wm = std::max(stored_wmax(dst), stored_wmax(src));
+      if (wm != std::max(a.wmax, b.wmax) && vf::known_keys().count(KEY_STALE)) throw vf::KnownSkip(KEY_STALE);
+      double avg = L.get_cumulative_weight() / L.get_c(), kk = std::min(a.k, b.k), cum = H.get_cumulative_weight();
       bool over = false;
       for (double i = 0; i < std::floor(L.get_c()) && !over; ++i) { cum += avg; if (std::min(1.0 / wm, kk / cum) * avg > 1.0) over = true; }
       if (over) {
@@ -374,8 +394,9 @@ void prop_main_t(const Case& cs) {
       double w = pattern_weight(pattern, i, n, seed, f.arbitrary);
       if (w == 0.0) vf::label("zero-weight-ignored");
       do_update(s, next_id++, w, i & 1);
+      if (getenv("C18_TRACE_UPD")) { std::cerr.precision(17); std::cerr << what << " w=" << w << " -> c=" << s.sk.get_c() << "\n" << s.sk.items_to_string(); }
       check_basic(s, f, what);
-      if (n <= 40 || i % 97 == 0) check_sample(s, f, 1);
+      if (n <= 40 || i % 97 == 0 || i + 1 == n) check_sample(s, f, 1);
     }
   };
   // initial content of the four sketches (so that most merges join two non-empty sketches)
